@@ -10,11 +10,13 @@ EXTENDS Sanitize, IOUtils
 Obs == JsonDeserialize(IOEnv.OBS_FILE)
 Units == Obs.units      \* [name, cfg, form, redacted]
 Runs == Obs.runs        \* [cfg, sanitize, routes : <<[route, name, present : [console, curl, junit, vcr, har]]>>]
+Hists == Obs.hists      \* [steps : <<[kind, op, name]>>, outs : <<[step, form, redacted]>>] - one process, re-configured on the way
 VARIABLES what, i
 jvars == <<vars, what, i>>
 JInit == /\ kind = "judge" /\ nameIx = 0 /\ cfgKind = "-" /\ route = "-" /\ sink = "-" /\ sanitize = TRUE
          /\ \/ what = "unit" /\ i \in 1..Len(Units)
             \/ what = "run" /\ i \in 1..Len(Runs)
+            \/ what = "hist" /\ i \in 1..Len(Hists)
 JNext == UNCHANGED jvars
 JSpec == JInit /\ [][JNext]_jvars
 
@@ -27,6 +29,11 @@ RunVerdict == LET r == Runs[i] IN
                         : s \in {s \in Sinks : LET e == Expected(x.route, s, x.name, r.sanitize, Cfg(r.cfg)) IN
                                                (e = "absent" /\ x.present[s]) \/ (e = "present" /\ ~x.present[s])}}
                      : k \in 1..Len(r.routes)}
-Verdict == IF what = "unit" THEN UnitVerdict ELSE RunVerdict
+(* every output of a history must be what the configuration current at that call says - nothing remembered from earlier calls *)
+HistVerdict == LET h == Hists[i] IN
+               {<<h.outs[k].form, h.outs[k].step, IF h.outs[k].redacted THEN "over-redacted" ELSE "leak">>
+                  : k \in {k \in 1..Len(h.outs) :
+                             h.outs[k].redacted # Sensitive(h.steps[h.outs[k].step].name, CfgAt(h.steps, h.outs[k].step - 1))}}
+Verdict == IF what = "unit" THEN UnitVerdict ELSE IF what = "run" THEN RunVerdict ELSE HistVerdict
 Report == IF Verdict = {} THEN TRUE ELSE PrintT(<<"DISAGREE", ToJson([what |-> what, i |-> i, v |-> Verdict])>>)
 =============================================================================
